@@ -356,6 +356,11 @@ func (x *Exec) newIterator(st *State, h *storeHandle, reverse bool, pos string) 
 			segs := h.Prefix.Segs
 			if segs[len(segs)-1].Kind == "const" {
 				lastIsPrefix = true
+			} else if n >= 2 {
+				// a variable-length string component (e.g. a token id) as the last part of a byte prefix matches every
+				// key whose component merely starts with it; the first component (the chain id) is treated as exact
+				lastIsPrefix = true
+				x.e.note("chain ids are prefix-free, so a byte prefix ending in the chain id selects exactly that chain (validateChains does not enforce this)")
 			}
 		}
 	}
@@ -388,14 +393,24 @@ func (x *Exec) newIterator(st *State, h *storeHandle, reverse bool, pos string) 
 	// strict order on the varying integer suffix (when all varying segments are integers), else distinctness
 	ordered := false
 	if fam != nil {
-		allInt := len(fixed) < len(fam.Segs) && !lastIsPrefix
+		allInt := len(fixed) < len(fam.Segs)
 		for a := len(fixed); a < len(fam.Segs); a++ {
 			if fam.Segs[a] == "str" {
 				allInt = false
 			}
 		}
+		sameStr := ""
+		if lastIsPrefix {
+			if h.Prefix.Segs[len(h.Prefix.Segs)-1].Kind == "const" {
+				allInt = false
+			} else {
+				// order is only claimed among keys that agree on the prefix-matched component
+				a := len(fixed) - 1
+				sameStr = fmt.Sprintf("(= (K_%s_%d %s) (K_%s_%d %s))", fam.Name, a, kI, fam.Name, a, kJ)
+			}
+		}
 		if allInt {
-			ordered = true
+			ordered = sameStr == ""
 			// lexicographic less on (seg_a ...) between key i and key j
 			var lex func(a int) string
 			lex = func(a int) string {
@@ -410,7 +425,11 @@ func (x *Exec) newIterator(st *State, h *storeHandle, reverse bool, pos string) 
 				}
 				return fmt.Sprintf("(or %s (and (= %s %s) %s))", lt, si, sj, lex(a+1))
 			}
-			st.assume(T{S: fmt.Sprintf("(forall ((i Int) (j Int)) (! (=> (and (<= 0 i) (< i j) (< j %s)) %s) :pattern (%s %s)))", n.S, lex(len(fixed)), kI, kJ), So: SBool}, "iterator order")
+			guard := fmt.Sprintf("(and (<= 0 i) (< i j) (< j %s))", n.S)
+			if sameStr != "" {
+				guard = fmt.Sprintf("(and (<= 0 i) (< i j) (< j %s) %s)", n.S, sameStr)
+			}
+			st.assume(T{S: fmt.Sprintf("(forall ((i Int) (j Int)) (! (=> %s %s) :pattern (%s %s)))", guard, lex(len(fixed)), kI, kJ), So: SBool}, "iterator order")
 			x.e.note("iteration order of integer key suffixes (fill32/u64 big-endian) equals numeric order for non-negative values (checked by L0 lemma order-iso)")
 		}
 	}
